@@ -426,12 +426,20 @@ func init() {
 			for L := int64(0); L <= 8; L++ {
 				out = append(out, Inst{Pkg: "dpt", Fn: "HarnessC19Unknown", Args: []int64{L}, Unwind: 2000, Note: "every string of this length"})
 			}
+			seen := map[int64]int{}
+			for _, n := range dptNames(l) {
+				seen[n[0]]++
+				if (n[0] == 9 || n[0] == 14) && seen[n[0]] > 2 {
+					continue // look-alike float types: two representatives (every type is covered by HarnessC19Entry)
+				}
+				out = append(out, Inst{Pkg: "dpt", Fn: "HarnessC19Concurrent", Args: []int64{n[0], n[1]}, Race: true, NoNative: true, Note: "two goroutines produce and decode concurrently; happens-before race check on datapoint objects"})
+			}
 			return out
 		},
 		Extra:   c19Completeness,
-		Covers:  []string{"C19.entry.end", "C19.names.end", "C19.known", "C19.unknown"},
+		Covers:  []string{"C19.entry.end", "C19.names.end", "C19.known", "C19.unknown", "C19.conc.end", "C19.conc.both_decoded"},
 		Bounds:  "the registry initialiser of the current source is executed; every listed name: producible, type name = *dpt.DPT_<digits>, instances distinct, a decode of a fully symbolic payload into one instance leaves other and later instances at the zero value; every string of length 0..8 (fully symbolic) is produced exactly when it is listed; completeness: every exported DPT_* type implementing Datapoint (enumerated with go/types) is the dynamic type of an entry",
-		Outside: "names longer than 8 bytes (the longest key has 7); concurrency: instances share no memory (distinct objects, decode writes only its receiver), so interleavings of Produce/Unpack calls are not explored separately",
+		Outside: "names longer than 8 bytes (the longest key has 7); more than two concurrent goroutines (two goroutines producing and decoding at the same time are explored for every type - two representatives of the 9.xxx and 14.xxx look-alikes - under the vector-clock race check on datapoint objects; more goroutines add no new sharing pattern: instances are distinct objects and decode writes only its receiver)",
 		Assume:  []string{"reflect.TypeOf(x).Elem() / reflect.New(t).Interface() are modelled as: fresh zero object of the pointee type", "three-digit sub-number is read as at least three digits (14.1200 is a genuine KNX identifier)"},
 	})
 
